@@ -59,23 +59,26 @@
 (***************************************************************************)
 EXTENDS StaticSem, Json
 
-CONSTANTS MaxTok, MaxDepth, Leaves, RootKinds, StoreByCopy, TailKeepsSets
+\* Families: the bounded universes explored by one run.  A family is
+\*   [id, leaves (alphabet), maxtok, roots]; it is chosen in Init and never changes.
+CONSTANTS MaxDepth, Families, StoreByCopy, TailKeepsSets
 
-VARIABLES els,     \* objects constructed so far (construction order)
+VARIABLES fam,     \* the family of this behaviour
+          els,     \* objects constructed so far (construction order)
           open,    \* stack of brackets being evaluated: [k, ch]
           st,      \* per object: [has, ctx, exc, nm]
           pol,     \* how bare accumulator branches count (freedom of the statement)
           phase,   \* "build" "built" "done"
           gctx,    \* result of root._get_context()
           rt       \* run-time contexts that left the pipeline
-vars == <<els, open, st, pol, phase, gctx, rt>>
+vars == <<fam, els, open, st, pol, phase, gctx, rt>>
 \* tokens evaluated so far: every leaf and every bracket is an object or still open
 ntok == Len(els) + Len(open)
 
 St0 == [has |-> FALSE, ctx |-> Empty, exc |-> "", nm |-> <<>>]
 NoRes == [ctx |-> Empty, exc |-> ""]
 
-HasSet(k) == k \in {"set", "store", "ucfs", "mf", "write", "cache", "seq", "src", "split"}
+HasSet(k) == k \in {"set", "store", "ucfs", "mf", "mfd", "mfe", "write", "cache", "seq", "src", "split"}
 HasGet(k) == k \in {"set", "seq", "src", "split"}
 HasNoData(k) == k \in {"set", "store"}
 
@@ -125,12 +128,12 @@ SetCtx(E, p, e, c, al, s) ==
          ELSE [s |-> [s EXCEPT ![e].exc = r.key], al |-> al, exc |-> r.key]
     [] E[e].k = "store" ->
          [s |-> [s EXCEPT ![e] = [@ EXCEPT !.has = TRUE, !.ctx = c]], al |-> al, exc |-> ""]
-    [] E[e].k \in {"ucfs", "mf"} ->
+    [] E[e].k = "ucfs" \/ IsMF(E[e].k) ->
          [s |-> [s EXCEPT ![e] = [@ EXCEPT !.has = TRUE, !.ctx = c]],
           al |-> IF StoreByCopy THEN al ELSE al \cup {e}, exc |-> ""]
     [] E[e].k \in {"write", "cache"} ->
          LET r == Fmt(E[e].v.toks, c) IN
-         [s |-> IF r.ok THEN [s EXCEPT ![e] = [@ EXCEPT !.has = TRUE, !.nm = r.s]] ELSE s,
+         [s |-> IF r.ok /\ (\E j \in 1..Len(E[e].v.toks) : E[e].v.toks[j].f) THEN [s EXCEPT ![e] = [@ EXCEPT !.has = TRUE, !.nm = r.s]] ELSE s,
           al |-> al, exc |-> ""]
     [] E[e].k \in {"seq", "src"} ->
          LET r == SeqLoop(E, p, E[e].ch, c, al, s) IN
@@ -188,30 +191,36 @@ Construct(E, p, n, s) ==
 (***************************************************************************)
 (* Actions.                                                                *)
 (***************************************************************************)
-Init == /\ els = <<>> /\ open = <<>> /\ st = <<>> /\ pol = "code" /\ phase = "build"
+Init == /\ fam \in Families
+        /\ els = <<>> /\ open = <<>> /\ st = <<>> /\ pol = "code" /\ phase = "build"
         /\ gctx = NoRes /\ rt = <<>>
 
 Top == open[Len(open)]
 AddChild(stack, id) == [stack EXCEPT ![Len(stack)].ch = Append(@, id)]
 
 Open(kind) ==
-  /\ phase = "build" /\ ntok < MaxTok /\ Len(open) < MaxDepth
-  /\ IF open = <<>> THEN els = <<>> /\ kind \in RootKinds
+  /\ phase = "build" /\ ntok < fam.maxtok /\ Len(open) < MaxDepth
+  /\ IF open = <<>> THEN els = <<>> /\ kind \in fam.roots
      ELSE IF Top.k = "split" THEN kind \in {"seq", "src"}
      ELSE kind \in {"seq", "split"}
   /\ open' = Append(open, [k |-> kind, ch |-> <<>>])
-  /\ UNCHANGED <<els, st, pol, phase, gctx, rt>>
+  /\ UNCHANGED <<fam, els, st, pol, phase, gctx, rt>>
 
+HasFields(tpl) == \E j \in 1..Len(tpl.toks) : tpl.toks[j].f
 \* SetContext.__init__ : try: self._set_context({}) except LenaKeyError: pass
 LeafInit(leaf) ==
   IF leaf.k = "set"
   THEN LET r == Eval(leaf.v, Empty) IN
        IF r.ok THEN [St0 EXCEPT !.has = TRUE, !.ctx = Put(Empty, leaf.p, r.v)]
        ELSE [St0 EXCEPT !.exc = r.key]
+  ELSE IF leaf.k \in {"write", "cache"} /\ ~HasFields(leaf.v)
+  \* Write / Cache with a constant name: set in __init__, _set_context returns at once
+  \* ("if '{' not in self._orig_outdir: return", write.py:290, cache.py:161)
+  THEN [St0 EXCEPT !.has = TRUE, !.nm = [j \in 1..Len(leaf.v.toks) |-> leaf.v.toks[j].l]]
   ELSE St0
 
 Place(leaf, newpol) ==
-  /\ phase = "build" /\ ntok < MaxTok /\ open # <<>>
+  /\ phase = "build" /\ ntok < fam.maxtok /\ open # <<>>
   /\ IF Top.k = "split" THEN leaf.k = "acc" ELSE leaf.k # "acc"
   \* the freedom for bare accumulators is chosen when the first one appears
   /\ IF leaf.k = "acc" /\ \A j \in 1..Len(els) : els[j].k # "acc"
@@ -220,7 +229,7 @@ Place(leaf, newpol) ==
   /\ els' = Append(els, [k |-> leaf.k, p |-> leaf.p, v |-> leaf.v, ch |-> <<>>])
   /\ st' = Append(st, LeafInit(leaf))
   /\ open' = AddChild(open, Len(els) + 1)
-  /\ UNCHANGED <<phase, gctx, rt>>
+  /\ UNCHANGED <<fam, phase, gctx, rt>>
 
 Close ==
   /\ phase = "build" /\ open # <<>>
@@ -232,7 +241,7 @@ Close ==
         /\ st' = Construct(E, pol, n, Append(st, St0))
         /\ IF rest = <<>> THEN open' = rest /\ phase' = "built"
            ELSE open' = AddChild(rest, n) /\ UNCHANGED phase
-  /\ UNCHANGED <<pol, gctx, rt>>
+  /\ UNCHANGED <<fam, pol, gctx, rt>>
 
 Root == Len(els)
 Seen == [j \in 1..Len(els) |-> st[j].ctx]
@@ -242,9 +251,9 @@ UseRoot == /\ phase = "built"
            /\ gctx' = Get1(els, pol, Root, st)
            /\ rt' = RunRoot(els, Seen)
            /\ phase' = "done"
-           /\ UNCHANGED <<els, open, st, pol>>
+           /\ UNCHANGED <<fam, els, open, st, pol>>
 
-PlaceAny == \E leaf \in Leaves, np \in Policies : Place(leaf, np)
+PlaceAny == \E leaf \in fam.leaves, np \in Policies : Place(leaf, np)
 OpenAny == \E kind \in {"seq", "src", "split"} : Open(kind)
 Next == PlaceAny \/ OpenAny \/ Close \/ UseRoot
 Spec == Init /\ [][Next]_vars
@@ -258,7 +267,7 @@ Components == IF phase = "build" THEN UNION {Range(open[j].ch) : j \in 1..Len(op
 
 \* element i holds what the declarative fold says it receives
 HoldsExpected(i, in) ==
-  CASE els[i].k \in {"store", "ucfs", "mf"} -> in.err \/ st[i].ctx = in.ctx
+  CASE els[i].k \in {"store", "ucfs"} \/ IsMF(els[i].k) -> in.err \/ st[i].ctx = in.ctx
     [] els[i].k \in {"write", "cache"} ->
          LET x == NameOf(els, i, in) IN (~x.free /\ x.ok) => (st[i].has /\ st[i].nm = x.s)
     [] OTHER -> TRUE
@@ -360,11 +369,47 @@ LeavesFocus3 == {SetC(KOX, "int", "1"), Plain("ucfs"), Consumer("mf", <<Fld(KOX)
 LeavesMin == {SetC(KA, "int", "1"), SetC(KB, "int", "2"), Plain("ucfs"), MFab}
 
 (***************************************************************************)
+(* More leaves: values that look like nothing, several fields, the other   *)
+(* MakeFilename fields, constant names, a static key named like a run-time *)
+(* key.                                                                    *)
+(***************************************************************************)
+KRT == <<"rt">>
+SetNone(path) == [k |-> "set", p |-> path, v |-> [t |-> "none", toks |-> <<Lit("None")>>]]
+SetEmptyStr(path) == [k |-> "set", p |-> path, v |-> [t |-> "str", toks |-> <<>>]]
+LeavesFocus3b == {SetC(KOX, "int", "1"), SetC(KRT, "int", "5"), Plain("ucfs"), Consumer("mf", <<Fld(KOX)>>),
+                  Consumer("mf", <<Fld(KRT)>>), Plain("store")}
+LeavesFocus4 == {SetC(KA, "int", "0"), SetEmptyStr(KA), SetNone(KB), SetF(KC, <<Fld(KA), Lit("_"), Fld(KB)>>),
+                 Wa, Consumer("mfd", <<Fld(KA)>>), Consumer("mfe", <<Fld(KB)>>),
+                 Consumer("write", <<Lit("d")>>), Consumer("cache", <<Lit("c"), Lit(".pkl")>>), Plain("store")}
+LeavesB == {SetC(KA, "int", "1"), SetC(KB, "int", "2"), MFab, Plain("ucfs")}
+LeavesWide == LeavesFull \cup LeavesFocus3b \cup LeavesFocus4
+
+(***************************************************************************)
+(* Families (one TLC run explores all families of its configuration).      *)
+(***************************************************************************)
+Fam(id, leaves, maxtok, roots) == [id |-> id, leaves |-> leaves, maxtok |-> maxtok, roots |-> roots]
+FamQuick == {Fam("A4", LeavesQuick, 4, AllRoots), Fam("B5", LeavesB, 5, SeqRoots),
+             Fam("F1", LeavesFocus1, 6, SeqRoot), Fam("F2", LeavesFocus2, 5, SeqRoot),
+             Fam("F3", LeavesFocus3b, 4, SeqRoot), Fam("F4", LeavesFocus4, 4, SeqRoots)}
+FamCov == {Fam("A3", LeavesQuick, 3, AllRoots)}
+FamT_A == {Fam("A5", LeavesQuick, 5, AllRoots)}
+FamT_B == {Fam("B6", LeavesTiny, 6, SeqRoots)}
+FamT_C == {Fam("C7", LeavesNested, 7, SeqRoot)}
+FamT_D == {Fam("D6", LeavesCore, 6, SeqRoots)}
+FamT_F == {Fam("F1", LeavesFocus1, 7, SeqRoot), Fam("F2d", LeavesFocus2b, 6, AllRoots),
+           Fam("F2", LeavesFocus2, 5, SeqRoots), Fam("F3", LeavesFocus3b, 5, SeqRoots),
+           Fam("F4", LeavesFocus4, 5, SeqRoots)}
+FamThorough == FamT_A \cup FamT_B \cup FamT_C \cup FamT_D \cup FamT_F
+FamSim == {Fam("W8", LeavesWide, 8, AllRoots)}
+FamAlias == {Fam("alias", LeavesMin, 4, SeqRoots)}
+FamTail == {Fam("tail", LeavesMin, 5, SrcRoot)}
+
+(***************************************************************************)
 (* Export of finished behaviours for the replay on the real code.          *)
 (***************************************************************************)
 ObsOf(i, in) ==
   CASE els[i].k \in {"store", "ucfs"} -> [free |-> in.err, ctx |-> in.ctx, ok |-> TRUE, s |-> <<>>, key |-> "", un |-> {}]
-    [] els[i].k \in {"mf", "write", "cache"} ->
+    [] IsMF(els[i].k) \/ els[i].k \in {"write", "cache"} ->
          LET x == NameOf(els, i, in) IN [free |-> x.free, ctx |-> in.ctx, ok |-> x.ok, s |-> x.s, key |-> "", un |-> {}]
     [] IsNode(els[i]) ->
          LET o == OutOf(els, pol, i, in) IN [free |-> in.err, ctx |-> o.ctx, ok |-> ~o.err, s |-> <<>>, key |-> o.key,
@@ -381,7 +426,7 @@ LateOf(i, w) ==
              IF pos + j <= Len(ch) THEN w[ch[pos + j]].ctx ELSE OutOf(els, pol, n, w[n]).ctx]
 Expectation ==
   LET w == Walk(els, pol, {}, Root, Empty).acc IN
-  [els |-> els, pol |-> pol,
+  [fam |-> fam.id, els |-> els, pol |-> pol,
    obs |-> [i \in 1..Len(els) |-> ObsOf(i, w[i]) @@ [late |-> LateOf(i, w)]],
    noerr |-> NoErr,
    rt |-> rt]
